@@ -184,6 +184,8 @@ type Exec struct {
 	feasAlways bool
 	feasTag string
 	rub     []*rubCtx
+	lockHook   Value
+	inLockHook bool
 	fresh   map[string]int
 	initSkipped []string
 }
